@@ -11,6 +11,7 @@ func init() {
 			"(PHASE) no collection of the result is sorted in a later phase of the file table than one in which addresses of its elements were kept (the sort would move other entities under those pointers). Not decided: sort.Slice itself; equal sequence numbers (excluded by the property).",
 		Rules: []Rule{
 			{Name: "SCAN", Doc: "a loop that does something for each element is not left early (no break out of a processing loop)", MinInstances: 1, Run: func(c *Ctx) { runFullScan(c, staticParseFns(c), "SCAN") }},
+			{Name: "NUM", Doc: "sequence numbers are parsed at the width they are stored at (strconv rejects what does not fit): distinct sequence numbers stay distinct sort keys", MinInstances: 2, Run: func(c *Ctx) { runNumericDecoders(c, staticParseFns(c), "NUM") }},
 			{Name: "REJECT", Doc: "a row is kept or rejected for what it says itself: no test that decides a rejection reads a loop-carried variable or a collection the row loop fills (a same-as-previous-row or already-seen guard loses valid rows of interleaved trips and shapes)", MinInstances: 7, Run: runRejectInert},
 			{Name: "ORDER", Doc: "per-group sorts, comparators, tail appends, pre-allocation guard, cache coherence", MinInstances: 8, Run: runStaticOrder},
 			{Name: "G6", Doc: "map-built output sorted by key", MinInstances: 2, Run: func(c *Ctx) { runG6(c, staticParseFns(c)) }},
